@@ -131,7 +131,8 @@ def run(ctx):
     if hwp:
         for s2 in hwp.call_sites('column::HashColumn::write_plan_existing'):
             a = hwp.term(s2)['a']
-            ok = any(op_place(x) is not None and str(hwp.locals[op_place(x)[0]]) == 'usize' and any(re.search(r'search_all_indexes$', c) for c in backward_slice(hwp, [op_place(x)]).calls) for x in a[1:])
+            # the position itself, or a value (tuple / small struct) that carries it
+            ok = any(op_place(x) is not None and any(re.search(r'search_all_indexes$', c) for c in backward_slice(hwp, [op_place(x)]).calls) for x in a[1:])
             ctx.ob('3f position-comes-from-verified-search', 'K4-provenance', hwp.path, 'the position given to write_plan_existing is the one search_all_indexes returned (search_index compares the key tail stored with the value)', ok, '', hwp.loc(s2))
     shared.allocation_state_belongs_to_a_record(ctx, '6')
     shared.index_insert_retried(ctx, '3r')      # a moved or new value always gets its index entry
